@@ -17,7 +17,7 @@ point_at_fraction(l/length()), point_at_fraction(f) = point_at_angle(angle*f), p
 (ALGEBRA) Arc2::three_points sweeps counter-clockwise exactly when the branch quantity is a positive multiple of (p1-p0)x(p2-p0) as a
 polynomial in the six coordinates; (GUARD) intersection_line_circle returns the foot of the centre under a two-sided |d-r| < tol that
 takes precedence, nothing only when also d > r, else foot -+ sqrt(r^2-d^2)/|dir|; circle x segment keeps a parameter exactly under the closed
-range [0,1] widened by a constant; (ENC) no function stores to the defining fields of a Circle2 / Arc2, directly or through a containing value. Round 5: intersection_interval returns, of the two arcs between the crossing points, the one whose interval contains the direction of the other centre (separated by the polarity of that test)."""
+range [0,1] widened by a constant; (ENC) no function stores to the defining fields of a Circle2 / Arc2, directly or through a containing value. Round 5: intersection_interval returns, of the two arcs between the crossing points, the one whose interval contains the direction of the other centre (separated by the polarity of that test). Round 6 (shared with C09): from_3_points rejects exactly under |det| < 1e-6 for the determinant both centre coordinates are divided by."""
 NOT_DECIDED = "that intersection points lie on both objects (vector identities with unit vectors), that directed_angle measures the stated direction (C18), center/ball/circle/angle fields are public, so a caller can desynchronise the cached box by assignment (the property is read as being about the constructions)"
 ASSUMPTIONS = ["real arithmetic for the algebraic identity; f64::powi(x,2) = x*x"]
 
